@@ -266,8 +266,35 @@ def make_parser_machine(ctx):
         def process(self, i):
             self.do(("process", i % len(self.cfg["pages"])))
 
+        @precondition(lambda self: self.cfg is not None and getattr(self, "last_out", None) is not None and self.cfg["filter_thr"] < 0)
+        @rule()
+        def again(self):
+            self.do(("again",))
+
+        def op_again(self):
+            """the layout object that came out of the last step is handed to the parser once more (a second pass over
+            an already processed page: its lines now carry transcriptions and confidences)."""
+            ctx = self.ctx
+            if getattr(self, "last_out", None) is None:
+                return
+            i, obj = self.last_out
+            img = self.pages[i][0]
+            want, _ = self.fresh[i]
+            try:
+                with catching_errors() as h, contextlib.redirect_stdout(io.StringIO()):
+                    out = self.parser.process_page(img.copy(), obj)
+            except Exception as e:  # noqa
+                ctx.fail("parser_process_page_raises", "%s: %s; history=%r" % (type(e).__name__, e, self.log))
+            got = page_result(out)
+            self.last_out = (i, out)
+            ctx.check(got == want, "second_pass_over_processed_page_differs",
+                      lambda: "page %d: second pass %r, first pass alone %r; history=%r" % (i, got, want, self.log))
+            ctx.event("second_pass_over_processed_page")
+            self.last = i
+
         def op_init(self, cfg):
             self.cfg = cfg
+            self.last_out = None
             self.pages = make_parser_pages(cfg["pages"])
             self.parser = build_parser(cfg)
             self.fresh = {}
@@ -280,6 +307,8 @@ def make_parser_machine(ctx):
             p = copy.deepcopy(pl)
             with catching_errors() as h, contextlib.redirect_stdout(io.StringIO()):
                 out = parser.process_page(img.copy(), p)
+            if parser is getattr(self, "parser", None):
+                self.last_out = (i, out)
             return page_result(out), list(h.records)
 
         def op_process(self, i):
@@ -388,7 +417,14 @@ _RS = {}
 def resume_state_cases(tier):
     import itertools
     # per page: which of (xml, render) an earlier interrupted run left behind
-    return [tuple(st) for st in itertools.product((0, 1, 2, 3), repeat=3)]
+    cases = [tuple(st) for st in itertools.product((0, 1, 2, 3), repeat=3)]
+    # 4 = the earlier run was killed while it was writing this page's XML: a truncated file, no rendering yet
+    for pos in range(3):
+        for others in itertools.product((0, 3), repeat=2):
+            stt = list(others)
+            stt.insert(pos, 4)
+            cases.append(tuple(stt))
+    return cases
 
 
 def body_resume_state(ctx, case):
@@ -416,18 +452,24 @@ def body_resume_state(ctx, case):
         for k in kinds:
             os.makedirs(outs[k])
         for pid, stt in zip(ids, case):
+            if stt == 4:
+                data = open(os.path.join(ref["xml"], pid + ".xml"), "rb").read()
+                with open(os.path.join(outs["xml"], pid + ".xml"), "wb") as f:
+                    f.write(data[:len(data) // 2])
+                ctx.event("truncated_output_of_killed_run")
+                continue
             if stt & 1:
                 shutil.copy(os.path.join(ref["xml"], pid + ".xml"), outs["xml"])
             if stt & 2:
                 shutil.copy(os.path.join(ref["render"], pid + ".jpg"), outs["render"])
         status, inj = F.run_main(F.argv_for(job, outs, skip=True))
-        desc = lambda: "per-page state (1 = xml present, 2 = render present) %r for pages %r" % (case, ids)
+        desc = lambda: "per-page state (1 = xml present, 2 = render present, 4 = truncated xml only) %r for pages %r" % (case, ids)
         ctx.check(status == "ok", "resumed_run_fails", lambda: "%s; " % status + desc())
         again = [p for p, stt in zip(ids, case) if stt == 3 and p in inj.processed]
         ctx.check(not again, "complete_page_processed_again", lambda: "%r; " % (again,) + desc())
         diff = F.diff_snapshots(_RS["snap"], F.snapshot(outs))
         ctx.check(not diff, "resumed_run_differs_from_uninterrupted_run", lambda: "%r; " % (diff,) + desc())
-        if any(stt in (1, 2) for stt in case):
+        if any(stt in (1, 2, 4) for stt in case):
             ctx.nontrivial(("resume_state", case))
     finally:
         shutil.rmtree(os.path.dirname(outs["xml"]), ignore_errors=True)
